@@ -91,6 +91,7 @@ type JobResult struct {
 	Err      string
 	Seconds  float64
 	Terms    int
+	Outside  map[string]int
 }
 
 var curRun *RunCtx
@@ -309,6 +310,7 @@ func (rc *RunCtx) runJob(j Job) (res *JobResult) {
 		res.Stubs = e.StubsUsed
 		res.Asserts = e.AssertLabels
 		res.Terms = e.TT.NumTerms()
+		res.Outside = e.Outside
 		for f := range e.Encoded {
 			res.Encoded = append(res.Encoded, f)
 		}
@@ -526,6 +528,15 @@ func (rc *RunCtx) processEvents() {
 		if r.Job.Vacuity && !vacuityHit && r.Err == "" {
 			rc.Infra = append(rc.Infra, fmt.Sprintf("vacuity twin %s did not reach its assert(false): harness is vacuous", r.Job.Name()))
 		}
+	}
+	outside := map[string]int{}
+	for _, r := range rc.Results {
+		for k, v := range r.Outside {
+			outside[k] += v
+		}
+	}
+	for k, v := range outside {
+		rc.Notes = append(rc.Notes, fmt.Sprintf("%d path(s) cut as outside the claim: %s", v, k))
 	}
 	// replay candidates natively, in parallel
 	type outc struct {
